@@ -32,6 +32,10 @@ var htmlTexts = []string{"text", " ", "x < y", "&amp;", "&lt;b&gt;", "é", "\n",
 
 func genSoup(t *rapid.T) string {
 	var sb strings.Builder
+	if rapid.IntRange(0, 9).Draw(t, "leadingSpace") == 0 {
+		// any amount of white space may come before the doctype
+		sb.WriteString(strings.Repeat([]string{" ", "\n", "\t \r\n", "\f"}[rapid.IntRange(0, 3).Draw(t, "spaceUnit")], []int{1, 7, 100, 511, 512, 600, 1100, 5000}[rapid.IntRange(0, 7).Draw(t, "spaceLen")]))
+	}
 	sb.WriteString([]string{"<!DOCTYPE html>", "<!doctype html>", "<!DOCTYPE html PUBLIC \"-//W3C//DTD XHTML 1.0 Strict//EN\" \"x\">", "<!DOCTYPE html >\n"}[rapid.IntRange(0, 3).Draw(t, "doctype")])
 	n := rapid.IntRange(0, 25).Draw(t, "soupLen")
 	var open []string
@@ -42,7 +46,10 @@ func genSoup(t *rapid.T) string {
 			sb.WriteString("<" + tag)
 			for j, na := 0, rapid.IntRange(0, 3).Draw(t, "nattrs")-1; j < na; j++ {
 				a := htmlAttrs[rapid.IntRange(0, len(htmlAttrs)-1).Draw(t, "attr")]
-				switch rapid.IntRange(0, 2).Draw(t, "attrForm") {
+				switch rapid.IntRange(0, 3).Draw(t, "attrForm") {
+				case 3:
+					// values are data: line breaks, tabs and references stay as they are
+					sb.WriteString(" " + a + "=\"" + []string{"a\nb", "a\tb", "a&#10;b", "a\r\nb", "a&#13;b", " x ", "", "a&amp;b", "&lt;", "é", "a  b", "\n"}[rapid.IntRange(0, 11).Draw(t, "attrVal")] + "\"")
 				case 0:
 					sb.WriteString(" " + a + "=\"v" + fmt.Sprint(j) + "\"")
 				case 1:
